@@ -1,17 +1,26 @@
 #!/usr/bin/env python3
 """Markdown table of the seeded changes under /verif/seeded (for DESIGN.md 10.6)."""
-import json, os
+import json, os, re
 rows = []
 root = "/verif/seeded"
-for name in sorted(os.listdir(root)):
+
+
+def key(n):
+    m = re.match(r"C(\d+)-m(\d+)", n)
+    return (int(m.group(1)), int(m.group(2))) if m else (99, 0)
+
+
+for name in sorted(os.listdir(root), key=key):
     mp = os.path.join(root, name, "meta.json")
     if not os.path.exists(mp):
         continue
     m = json.load(open(mp))
     v = m.get("validation", {})
     ran = "; ".join("%s: %s" % (r["check"], r["verdict"]) for r in v.get("ran", []))
-    rows.append("| %s | %s | %s | %s | %s |" % (name, (m.get("title") or "").replace("|", "/")[:90], (m.get("needs_to_manifest") or "").replace("|", "/").replace("\n", " ")[:160],
-                                             "yes" if v.get("valid") else "NO", ran))
-print("| seed | change | needs to manifest | validated (demo passes/fails, suite 50/50) | our checks |")
-print("|------|--------|-------------------|------|------|")
+    rc = v.get("recheck") or {}
+    now = "%s: %s" % (rc.get("check"), rc.get("verdict")) if rc else "(= first run)"
+    rows.append("| %s | %s | %s | %s | %s | %s |" % (name, (m.get("title") or "").replace("|", "/")[:90], (m.get("needs_to_manifest") or "").replace("|", "/").replace("\n", " ")[:160],
+                                                  "yes" if v.get("valid") else "NO", ran, now))
+print("| seed | change | needs to manifest | validated (demo passes/fails, suite 50/50) | our checks when the seed arrived | own check, final code |")
+print("|------|--------|-------------------|------|------|------|")
 print("\n".join(rows))
